@@ -35,10 +35,10 @@ func atomicFields(p *Prog) []atomicField {
 		{"verifier", "LogStore", "checksum", "running checksum read/written by StoreLogs"},
 		{"verifier", "LogStore", "sumStartIdx", "running checksum start"},
 	}
+	// the new-file flag of fs.File, if the implementation keeps one (it is found by role, and optional:
+	// a different mechanism, e.g. a mutex, would be judged by ORD-05 alone)
 	if f := atomicFlagOfFile(p); f != nil {
 		out = append(out, atomicField{"fs", "File", f.Name(), "new-file flag shared by concurrent Syncs"})
-	} else {
-		out = append(out, atomicField{"fs", "File", "new", "new-file flag shared by concurrent Syncs"})
 	}
 	return out
 }
